@@ -138,8 +138,9 @@ func (r *BinaryCopyReader) Read(ctx context.Context) (_ []any, err error) {
 		return nil, ctx.Err()
 	}
 
-	// NOTE: read the next chunk from the copy-in stream if the current chunk is empty.
-	if len(r.reader.Msg) == 0 {
+	// NOTE: read the next chunk from the copy-in stream while the current chunk
+	// is empty. A chunk could consist of nothing but the file header.
+	for len(r.reader.Msg) == 0 {
 		err = r.reader.Read()
 		if err != nil {
 			return nil, err
